@@ -205,7 +205,7 @@ def values_equal(a, b):
     if isinstance(a, Fresh) or isinstance(b, Fresh):
         if isinstance(a, Fresh) and isinstance(b, Fresh):
             return a == b
-        if isinstance(a, Const) or isinstance(b, Const):
+        if isinstance(a, (Const, New, ListV, DictV, SelfV)) or isinstance(b, (Const, New, ListV, DictV, SelfV)):
             return False
     if isinstance(a, ListV) and isinstance(b, ListV):
         if len(a.items) != len(b.items):
@@ -1048,8 +1048,13 @@ class SymEx:
             if m is not None:
                 return ('bound', m, b)
             for c in self.repo.mro(b.cls):
-                if name in c.class_attrs and isinstance(c.class_attrs[name], ast.Constant):
-                    return Const(c.class_attrs[name].value)
+                if name in c.class_attrs:
+                    v = c.class_attrs[name]
+                    if isinstance(v, ast.Constant):
+                        return Const(v.value)
+                    if isinstance(v, (ast.Tuple, ast.List, ast.Dict, ast.Set)):
+                        return _deep(self.module_const(c.module, '%s.%s' % (c.name, name), v), {})
+                    break
             return CallV('attr:' + name, [b])
         if isinstance(b, SelfV):
             if name in st.fields:
@@ -1069,6 +1074,8 @@ class SymEx:
                 return Const(b[1].name)
         if isinstance(b, (ListV, DictV, Const)):
             return ('method', b, name)
+        if isinstance(b, tuple) and b and b[0] == 'regex' and name in ('fullmatch', 'match', 'search'):
+            return ('regexmethod', b[1], name)
         if isinstance(b, Opaque) and b.text in ('itertools', 'functools', 'dict', 'collections', 're'):
             return Opaque('%s.%s' % (b.text, name))
         if isinstance(b, Opaque) and b.text == 'itertools.chain' and name == 'from_iterable':
@@ -1211,6 +1218,8 @@ class SymEx:
             return res
         if isinstance(f, tuple) and f[0] == 'method':
             return self.method(e, f[1], f[2], args, kw, st, func)
+        if isinstance(f, tuple) and f[0] == 'regexmethod':
+            pass
         if isinstance(f, Opaque) and f.text == 'itertools.chain.from_iterable' and args:
             seq = self.as_sequence(args[0])
             if seq is not None and all(self.as_sequence(x) is not None for x in seq):
@@ -1224,6 +1233,20 @@ class SymEx:
             import re as _re
             try:
                 m = getattr(_re, f.text[3:])(args[0].v, args[1].v)
+            except _re.error:
+                return [(st, CallV('raise', [Opaque('re.error')]))]
+            return [(st, Const(True) if m else Const(None))]
+        if isinstance(f, Opaque) and f.text == 'itertools.chain' and all(self.as_sequence(a) is not None for a in args):
+            flat = []
+            for a in args:
+                flat.extend(self.as_sequence(a))
+            return [(st, ListV(flat))]
+        if isinstance(f, Opaque) and f.text == 're.compile' and args and isinstance(args[0], Const) and isinstance(args[0].v, str):
+            return [(st, ('regex', args[0].v))]
+        if isinstance(f, tuple) and f and f[0] == 'regexmethod' and args and isinstance(args[0], Const) and isinstance(args[0].v, str):
+            import re as _re
+            try:
+                m = getattr(_re.compile(f[1]), f[2])(args[0].v)
             except _re.error:
                 return [(st, CallV('raise', [Opaque('re.error')]))]
             return [(st, Const(True) if m else Const(None))]
@@ -1339,6 +1362,28 @@ class SymEx:
                             bool(a0.pairs) if isinstance(a0, DictV) else True))]
         if n in ('min', 'max') and args and all(isinstance(x, Const) for x in args):
             return [(st, Const(min(x.v for x in args) if n == 'min' else max(x.v for x in args)))]
+        if n in ('map', 'filter') and len(args) == 2 and self.as_sequence(args[1]) is not None:
+            out, cur = [], st
+            for item in self.as_sequence(args[1]):
+                if n == 'filter' and isinstance(args[0], Const) and args[0].v is None:
+                    res = [(cur, item)]
+                else:
+                    res = self.apply(e, args[0], [item], {}, cur, None)
+                if len(res) != 1:
+                    return None
+                cur, v = res[0]
+                if n == 'map':
+                    out.append(v)
+                else:
+                    t = self.truthy(v, cur, e)
+                    if len(t) != 1:
+                        return None
+                    if t[0][0]:
+                        out.append(item)
+            return [(cur, ListV(out))]
+        if n == 'object' and not args:
+            st.fresh += 1
+            return [(st, Fresh('object', 1000000 + id(e) % 1000000))]
         if n == 'getattr' and len(args) >= 2 and isinstance(args[1], Const):
             v = self.attr(args[0], args[1].v, st, None, e)
             if isinstance(v, CallV) and len(args) > 2:
